@@ -377,6 +377,41 @@ pub fn run(run: &Run) {
             }
         }
     }
+    // honest blocks whose fees add up beyond the maximum coin value (each fee is legal on its own; faucets, so not on mainnet)
+    for net in [NetID::Custom02, NetID::Testnet] {
+        let (_w, rootn) = root(net, 0, false);
+        let parent = match &rootn.real {
+            Real::Sealed(s) => s.clone(),
+            _ => continue,
+        };
+        for (name, fees) in [("two fees of 2^119+1", vec![(1u128 << 119) + 1, (1 << 119) + 1]), ("three fees of 2^120", vec![1u128 << 120, 1 << 120, 1 << 120])] {
+            for act in [None, Some(action_dest(4))] {
+                let built = guard(|| {
+                    let mut u = parent.next_unsealed();
+                    for (i, f) in fees.iter().enumerate() {
+                        let t = tx_t(melstructs::TxKind::Faucet, vec![], vec![out_t(1, melstructs::Denom::Mel)], *f, vec![0xfa, i as u8]);
+                        u.apply_tx(&t).ok()?;
+                    }
+                    Some(u.seal(act))
+                });
+                run.transition();
+                match built {
+                    Ok(Some(child)) => {
+                        let blk = child.to_block();
+                        match guard(|| parent.apply_block(&blk).map(|s| s.header())) {
+                            Ok(Ok(h)) if h == blk.header => run.outcome("huge-fee-honest-block:accepted"),
+                            Ok(Ok(_)) => run.violation("C06", "huge-fee-honest-block/returned-header-differs".into(), format!("{} on genesis[{:?}]", name, net), json!({"network": format!("{:?}", net), "fees": name})),
+                            Ok(Err(e)) => run.violation("C06", "rejects-huge-fee-honest-block".into(), format!("a block of faucets with {} built on genesis[{:?}] one transaction at a time is rejected by apply_block: {}", name, net, e), json!({"network": format!("{:?}", net), "fees": name, "action": act.is_some()})),
+                            Err(_) => run.outcome("huge-fee-honest-block:panic(reported under C09)"),
+                        }
+                    }
+                    Ok(None) => run.outcome("huge-fee-honest-block:not-buildable"),
+                    Err(_) => run.outcome("huge-fee-honest-block:build-panics(reported under C09)"),
+                }
+                run.validated();
+            }
+        }
+    }
     run.set("parents", json!(total_parents));
     run.set("networks", json!(["Custom02 (sparse tx tree)", "Custom08 (dense tx tree, TIP-908)", "Testnet (pre-TIP rules below 500)", "thorough: Custom02 with fees, Mainnet"]));
     run.sample(json!({"parent": "genesis[Custom02]", "block": "xfer(coin)/action", "mutation": "header:fee_multiplier", "oracle": "apply_block is Ok iff (batch accepted and sealed header == block header); returned header == block header"}));
